@@ -120,6 +120,10 @@ type Query struct {
 	Limit int    `json:"limit,omitempty"`
 	// Invalid marks a query built to be rejected by the validity check.
 	Invalid bool `json:"invalid,omitempty"`
+	// DiffOnly: the answer is not compared with the reference evaluation (the
+	// index holds filler blobs the world description does not list); only
+	// the HTTP entry point is compared with the direct call.
+	DiffOnly bool `json:"diffOnly,omitempty"`
 }
 
 var sortTypes = map[string]search.SortType{
